@@ -112,6 +112,9 @@ func c14Run(c *h.Ctx) {
 	for i := 0; i < nPairs; i++ {
 		id := fmt.Sprintf("law-%d", i)
 		a := gen.Name(r, 5, 6)
+		if i%16 == 5 { // long components / long names (beyond any fixed-size fast path)
+			a = gen.Name(r, 1+r.Intn(12), []int{40, 130, 300}[r.Intn(3)])
+		}
 		b := gen.Near(r, a)
 		var d enc.Name
 		if r.Intn(2) == 0 {
